@@ -28,6 +28,7 @@ class LinkMonitor:
         self.max_ratio = 0.0
         self.drops = 0
         self.events = []
+        self.air_sent = {}  # frequency (Hz) -> sum of the sizes of the frames put on the air this tick (own count)
 
     def v(self, mech, msg):
         if not any(o["mech"] == mech for o in self.out):
@@ -87,6 +88,11 @@ class LinkMonitor:
 
         probes.wrap(Link, "can_transmit_frame", None, post_can)
 
+        def pre_air(air, frame, sender_network_interface):
+            hz = sender_network_interface.frequency.frequency_hz
+            mon.air_sent[hz] = mon.air_sent.get(hz, 0.0) + frame.size_Mbits
+            return None
+
         def post_air(air, tok, res, exc, frame, sender_network_interface):
             f = sender_network_interface.frequency
             load = air.bandwidth_load.get(f.frequency_hz, 0.0)
@@ -97,7 +103,7 @@ class LinkMonitor:
             if load > cap * (1 + REL) + 1e-15:
                 mon.v("wireless-load-exceeds-capacity", f"frequency {f.name}: load {load:.9f} > capacity {cap:.9f}")
 
-        probes.wrap(AirSpace, "transmit", None, post_air)
+        probes.wrap(AirSpace, "transmit", pre_air, post_air)
 
         def post_pre(net, tok, res, exc, timestep):
             mon.cov.inc("pre_timestep_checks")
@@ -108,6 +114,7 @@ class LinkMonitor:
                 if load != 0.0:
                     mon.v("wireless-load-not-zero-at-tick-start", f"frequency {f}: load {load} right after pre_timestep")
             mon.delivered.clear()
+            mon.air_sent.clear()
 
         probes.wrap(Network, "pre_timestep", None, post_pre)
 
@@ -123,6 +130,12 @@ class LinkMonitor:
             if link.current_load > link.bandwidth * (1 + REL) + 1e-15:
                 kind = "nested" if self.max_depth > 1 else "flat"
                 self.v(f"wired-load-exceeds-bandwidth/{kind}", f"after {what}: link {link} load {link.current_load:.9f} > {link.bandwidth:.9f}")
+        # the air: what a frequency's load says was carried this tick == what was actually put on it this tick (own count)
+        for hz in set(net.airspace.bandwidth_load) | set(self.air_sent):
+            load, exp = net.airspace.bandwidth_load.get(hz, 0.0), self.air_sent.get(hz, 0.0)
+            self.cov.inc("air_conservation_checks")
+            if abs(load - exp) > 1e-9 * max(1.0, exp):
+                self.v("wireless-load-not-equal-sent", f"after {what}: frequency {hz} Hz load {load:.9f} != {exp:.9f} put on the air in this tick")
 
 
 # ------------------------------------------------------------------------------------------------ scenarios
@@ -342,13 +355,32 @@ class Check:
                 net = game.simulation.network
                 hosts = [n for n in net.nodes.values() if n.__class__.__name__ in ("Computer", "Server")]
                 peak = 0.0
-                for t in range(spec["ticks"]):
+                wrs = [n for n in net.nodes.values() if n.__class__.__name__ == "WirelessRouter"]
+                rnd = random.Random(spec["seed"])
+                down = {}  # router -> (how, tick at which it is brought back)
+                for t in range(max(spec["ticks"], 16) if ctx.get("disrupt") else spec["ticks"]):
                     game.simulation.pre_timestep(t)
+                    for rn, (how, back) in list(down.items()):
+                        if t >= back:
+                            game.simulation.apply_request(["network", "node", rn] + (["network_interface", 1, "enable"] if how == "ap" else ["startup"]))
+                            del down[rn]
+                            cov.hit("wireless_disruptions", f"{how}-back")
                     for h in hosts:
                         for g in hosts:
                             if h is not g:
                                 h.ping(str(g.network_interface[1].ip_address), pings=2)
                                 mon.quiescent(net, f"ping {h.config.hostname}->{g.config.hostname}")
+                    if ctx.get("disrupt") and t % 3 == 1:
+                        # after this tick's traffic: access points disabled / routers powered off - one of them, or ALL of them, across the tick boundary
+                        how = rnd.choice(["ap", "power"])
+                        for r in (wrs if rnd.random() < 0.6 else wrs[:1]):
+                            if r.config.hostname not in down and r.operating_state.name == "ON":
+                                game.simulation.apply_request(["network", "node", r.config.hostname] + (["network_interface", 1, "disable"] if how == "ap" else ["shutdown"]))
+                                down[r.config.hostname] = (how, t + rnd.choice([1, 2, 5]))
+                                cov.hit("wireless_disruptions", how)
+                        if len(down) == len(wrs):
+                            cov.inc("ticks_ending_with_every_access_point_down")
+                        mon.quiescent(net, "disruption")
                     game.simulation.apply_timestep(t + 1)
                     peak = max([peak] + list(net.airspace.bandwidth_load.values()))
                 return mon, peak
@@ -362,6 +394,7 @@ class Check:
             cap = peak * spec["factor"]
             c2["simulation"]["network"].setdefault("airspace", {})["frequency_max_capacity_mbps"] = {"WIFI_2_4": cap, "WIFI_5": cap}
             mon, _ = run(c2, {"topo": "wireless", "capacity": cap, "k": spec["factor"], "unconstrained_peak": peak})
+            run(copy.deepcopy(c2 if spec["seed"] % 2 else cfg), {"topo": "wireless", "capacity": cap if spec["seed"] % 2 else "default", "disrupt": True})
             cov.mx("air_load_over_capacity_ratio", round(getattr(mon, "max_ratio_air", 0.0), 6))
             nontrivial = cov.d.get("air_transmits", 0) > 0
         return {"violations": out, "cov": cov.d, "nontrivial": nontrivial, "digest": digest(spec),
